@@ -210,6 +210,16 @@ package decimal
 //@ define addq(x, y) = (qexp(x) <= qexp(y) ? qexp(x) : qexp(y))
 //@ define addsum(x, y) = (qexp(x) <= qexp(y) ? V(x.mant) + V(y.mant)*p10(qexp(y) - qexp(x)) : V(x.mant)*p10(qexp(x) - qexp(y)) + V(y.mant))
 //@ define addmag(x, y, same) = (same ? addsum(x, y) : (absgt(x, y) ? subdiff(x, y) : subdiff(y, x)))
+// the same on (mantissa, scale) pairs: |a| = Ma*10^qa
+//@ define sumv(Ma, qa, Mb, qb) = (qa <= qb ? Ma + Mb*p10(qb - qa) : Ma*p10(qa - qb) + Mb)
+//@ define diffv(Ma, qa, Mb, qb) = (qa <= qb ? Ma - Mb*p10(qb - qa) : Ma*p10(qa - qb) - Mb)
+//@ define gtv(Ma, qa, Mb, qb) = (qa <= qb ==> Ma > Mb*p10(qb - qa)) && (qa > qb ==> Ma*p10(qa - qb) > Mb)
+//@ define eqv(Ma, qa, Mb, qb) = (qa <= qb ==> Ma == Mb*p10(qb - qa)) && (qa > qb ==> Ma*p10(qa - qb) == Mb)
+//@ define magv(Ma, qa, Mb, qb, same) = (same ? sumv(Ma, qa, Mb, qb) : (gtv(Ma, qa, Mb, qb) ? diffv(Ma, qa, Mb, qb) : diffv(Mb, qb, Ma, qa)))
+// fmaspec: z is (product + u) rounded once, the product being Mp*10^qp with sign sp, exactly.
+//@ define fmaspec(z, Mp, qp, sp, Mu, qu, su, gL, gs) = !(sp != su && eqv(Mp, qp, Mu, qu)) ==>
+//@   0 <= gs && gs <= 18 && gL >= 1 && P(gL) <= 10*(magv(Mp, qp, Mu, qu, sp == su)*p10(gs)) && magv(Mp, qp, Mu, qu, sp == su)*p10(gs) < P(gL) &&
+//@   roundspec(z, magv(Mp, qp, Mu, qu, sp == su)*p10(gs), gL, (qp <= qu ? qp : qu) + 19*gL - gs, false)
 //@ define subdiff(x, y) = (qexp(x) <= qexp(y) ? V(x.mant) - V(y.mant)*p10(qexp(y) - qexp(x)) : V(x.mant)*p10(qexp(x) - qexp(y)) - V(y.mant))
 
 // uadd: with S the exact integer sum at scale 10^q, gL its word count and gs its number of
@@ -685,6 +695,21 @@ package decimal
 //@        (z.neg <==> (((old(x.neg) != old(y.neg)) && old(u.neg)) || ((old(x.neg) != old(y.neg)) != old(u.neg) && z.mode == ToNegativeInf)))
 //@   ensures[zeroprod,C04] (old(x.form) == zero || old(y.form) == zero) && old(u.form) == finite ==> z.neg == old(u.neg) && z.form != zero
 //@   ensures[zerou,C03,C04] old(x.form) == finite && old(y.form) == finite && old(u.form) == zero ==> z.neg == (old(x.neg) != old(y.neg))
+//@   ghost gL, gs, gMp, gqp
+//@   ensures[prod,C03,C06] old(x.form) == finite && old(y.form) == finite && old(u.form) == finite ==>
+//@        let L = old(len(x.mant)) + old(len(y.mant)) in let MM = old(V(x.mant))*old(V(y.mant)) in
+//@        (10*MM >= P(L) ==> gMp == MM && gqp == old(x.exp) + old(y.exp) - 19*L) && (10*MM < P(L) ==> gMp == 10*MM && gqp == old(x.exp) + old(y.exp) - 1 - 19*L)
+//@   ensures[value,C03,C01,C02] old(x.form) == finite && old(y.form) == finite && old(u.form) == finite ==>
+//@        fmaspec(z, gMp, gqp, old(x.neg) != old(y.neg), old(V(u.mant)), old(qexp(u)), old(u.neg), gL, gs)
+//@   hint[after:umul#1] bind(gMp, V(z0.mant))
+//@   hint[after:umul#1] bind(gqp, z0.exp - 19*len(z0.mant))
+//@   ensures[value_uzero,C03,C01,C02] old(x.form) == finite && old(y.form) == finite && old(u.form) == zero ==>
+//@        mulspec(z, old(V(x.mant)), old(len(x.mant)), old(x.exp), old(V(y.mant)), old(len(y.mant)), old(y.exp))
+//@   hint[after:umul#1] assert(z0.form == finite && z0.acc == 0 && len(z0.mant) == old(len(x.mant)) + old(len(y.mant)) &&
+//@        (10*(old(V(x.mant))*old(V(y.mant))) >= P(old(len(x.mant)) + old(len(y.mant))) ==> V(z0.mant) == old(V(x.mant))*old(V(y.mant)) && z0.exp == old(x.exp) + old(y.exp)) &&
+//@        (10*(old(V(x.mant))*old(V(y.mant))) <  P(old(len(x.mant)) + old(len(y.mant))) ==> V(z0.mant) == 10*(old(V(x.mant))*old(V(y.mant))) && z0.exp == old(x.exp) + old(y.exp) - 1))
+//@   hint[after:Add#1] bind(gL, ghost_gL)
+//@   hint[after:Add#1] bind(gs, ghost_gs)
 //@   panics[nan,C04] (old(x.form) == zero && old(y.form) == inf) || (old(x.form) == inf && old(y.form) == zero) ||
 //@        ((old(x.form) == inf || old(y.form) == inf) && old(u.form) == inf && (old(x.neg) != old(y.neg)) != old(u.neg))
 //@   onpanic[valid,C04,C08] valid(z)
@@ -876,3 +901,19 @@ package decimal
 //@   ensures ((mode*32 + (acc + 1)*8 + form*2 + neg)/32) % 8 == mode && ((mode*32 + (acc + 1)*8 + form*2 + neg)/8) % 4 - 1 == acc &&
 //@           ((mode*32 + (acc + 1)*8 + form*2 + neg)/2) % 4 == form && (mode*32 + (acc + 1)*8 + form*2 + neg) % 2 == neg &&
 //@           mode*32 + (acc + 1)*8 + form*2 + neg < 256
+
+// ---------------------------------------------------------------------------
+// Integer conversions (C14)
+
+//@ func (x dec) toUint64() (uint64, bool)
+//@   pure
+//@   requires[words] wordsok(x) && natnorm(x) && small(x)
+//@   ensures[fits,C14] result1 ==> result0 == V(x)
+//@   ensures[over,C14] !result1 ==> V(x) >= 18446744073709551616
+//@   hint[entry] len(x) >= 1 ==> V_ge_P(x, 0, len(x))
+//@   hint[entry] len(x) >= 3 ==> P_mono(2, len(x)-1)
+//@   hint[entry] Pdef(0)
+//@   hint[entry] Pdef(1)
+//@   hint[entry] len(x) == 2 ==> Vdef(x, 0, 1)
+//@   hint[entry] len(x) >= 1 ==> Vdef(x, 0, 0)
+//@   tags safety C04,C14
